@@ -15,6 +15,7 @@
 package blockfetch
 
 import (
+	"bytes"
 	"context"
 	"errors"
 	"fmt"
@@ -435,6 +436,10 @@ func (c *Client) GetBlock(point pcommon.Point) (ledger.Block, error) {
 			return nil, protocol.ErrProtocolShuttingDown
 		}
 		block = b
+	case <-c.batchDoneChan:
+		// The server ended the batch without sending a block
+		c.releaseBusy(token)
+		return nil, errors.New("block(s) not found: batch contained no blocks")
 	case <-protocolDone:
 		c.releaseBusy(token)
 		return nil, protocol.ErrProtocolShuttingDown
@@ -442,16 +447,45 @@ func (c *Client) GetBlock(point pcommon.Point) (ledger.Block, error) {
 	// Wait for BatchDone before returning to ensure the protocol state machine
 	// completes the batch properly (transitions back to Idle state).
 	// handleBatchDone signals batchDoneChan in GetBlock mode instead of unlocking.
-	select {
-	case <-c.batchDoneChan:
-		// BatchDone was processed successfully
-		c.releaseBusy(token)
-		return block, nil
-	case <-protocolDone:
-		// Shutdown while waiting for BatchDone
-		c.releaseBusy(token)
-		return nil, protocol.ErrProtocolShuttingDown
+	// Any additional blocks are drained (and make the call fail) so that the
+	// message handler is never left blocked on the block channel.
+	extraBlocks := 0
+waitBatchDone:
+	for {
+		select {
+		case <-c.batchDoneChan:
+			// BatchDone was processed successfully
+			break waitBatchDone
+		case _, ok := <-c.blockChan:
+			if !ok {
+				c.releaseBusy(token)
+				return nil, protocol.ErrProtocolShuttingDown
+			}
+			extraBlocks++
+		case <-protocolDone:
+			// Shutdown while waiting for BatchDone
+			c.releaseBusy(token)
+			return nil, protocol.ErrProtocolShuttingDown
+		}
 	}
+	c.releaseBusy(token)
+	if extraBlocks > 0 {
+		return nil, fmt.Errorf(
+			"%s: received %d blocks in response to a single block request",
+			ProtocolName,
+			extraBlocks+1,
+		)
+	}
+	// Make sure we got the block that we asked for
+	if !bytes.Equal(block.Hash().Bytes(), point.Hash) {
+		return nil, fmt.Errorf(
+			"%s: received block %s does not match requested block %x",
+			ProtocolName,
+			block.Hash().String(),
+			point.Hash,
+		)
+	}
+	return block, nil
 }
 
 // messageHandler handles incoming protocol messages for the client.
